@@ -23,7 +23,7 @@ theorem md_regex_sources :
        ("MD_PIPE_OR_ESCAPE", "(?<!\\\\)\\|"), ("MD_SEPARATOR", "^[\\|-]+$"), ("RE_WHITESPACE", "( )+")] := by
   decide
 
-/-- `DefinitionData` accepts exactly the supported sheets, their headers and the two metadata fields -/
+/-- the keys kept for `DefinitionData`: exactly the supported sheets, their headers and `sheet_names` -/
 theorem definition_fields :
     definitionFields = (["survey", "choices", "settings", "external_choices", "entities", "osm"].flatMap
       fun s => [s.toList, (s ++ "_header").toList]) ++ ["sheet_names".toList] := by decide
@@ -183,26 +183,36 @@ example : cellText (.bool true) = some "TRUE".toList := by decide
 /-- `get_xlsform` = parse the normalised bytes with the chosen parsers, then attach the stem -/
 theorem getXlsform_eq (bin : FileType → Str → Except Err Book) (c : Channel) (content : Str) (ft : Option FileType) :
     getXlsform bin c content ft =
-      match tryParsers bin content
+      match tryParsers bin (getDefinitionData c content).data
           (match (match ft with | some t => some t | none => (getDefinitionData c content).fileType) with
             | some t => [t] | none => allTypes) with
       | .error e => .error e
-      | .ok b => match toDefinition b with
-        | .error e => .error e
-        | .ok b => .ok (b, (getDefinitionData c content).stem) := by
+      | .ok b => .ok (toDefinition b, (getDefinitionData c content).stem) := by
   cases c <;> rfl
 
-/-- with an explicit `file_type` the parsed workbook does not depend on the channel -/
+/-- a channel delivers the whole content: everything but an open file that is not at its start
+(a caller's `BytesIO` at any position does) -/
+def Channel.whole : Channel → Bool
+  | .file pos => pos == 0
+  | _ => true
+
+theorem data_of_whole (c : Channel) (content : Str) (h : c.whole = true) :
+    (getDefinitionData c content).data = content := by
+  cases c <;> simp_all [getDefinitionData, Channel.whole]
+
+/-- with an explicit `file_type` the parsed workbook does not depend on the channel
+(in particular not on the position of a `BytesIO`) -/
 theorem channel_independent_explicit (bin : FileType → Str → Except Err Book) (c₁ c₂ : Channel)
-    (content : Str) (t : FileType) :
+    (content : Str) (t : FileType) (h₁ : c₁.whole = true) (h₂ : c₂.whole = true) :
     (getXlsform bin c₁ content (some t)).map Prod.fst = (getXlsform bin c₂ content (some t)).map Prod.fst := by
-  rw [getXlsform_eq, getXlsform_eq]
+  rw [getXlsform_eq, getXlsform_eq, data_of_whole c₁ content h₁, data_of_whole c₂ content h₂]
   simp only []
-  cases tryParsers bin content [t] with
-  | error e => rfl
-  | ok b =>
-    dsimp only
-    cases toDefinition b <;> rfl
+  cases tryParsers bin content [t] <;> rfl
+
+/-- the position of a caller's `BytesIO` is irrelevant -/
+theorem bytesIO_position_irrelevant (bin : FileType → Str → Except Err Book) (p q : Nat) (content : Str)
+    (t : Option FileType) :
+    getXlsform bin (.bytesIO p) content t = getXlsform bin (.bytesIO q) content t := rfl
 
 /-- what a channel contributes besides the bytes -/
 def stemOf : Channel → Option Str
@@ -216,23 +226,27 @@ theorem channel_stem (bin : FileType → Str → Except Err Book) (c : Channel) 
   rw [getXlsform_eq] at h
   split at h
   · cases h
-  · split at h
-    · cases h
-    · injection h with h
-      injection h with _ h
-      subst h
-      cases c <;> rfl
+  · injection h with h
+    injection h with _ h
+    subst h
+    cases c <;> rfl
 
-/-- without `file_type`, the channels that are not paths are indistinguishable; a path whose suffix
-names a supported type behaves like that explicit type -/
+/-- what a channel says about the type (only a path with a known suffix does) -/
+theorem fileType_of_not_path (c : Channel) (content : Str) (h : ∀ s x, c ≠ .path s x) :
+    (getDefinitionData c content).fileType = none ∧ (getDefinitionData c content).stem = none := by
+  cases c with
+  | path s x => exact absurd rfl (h s x)
+  | _ => exact ⟨rfl, rfl⟩
+
+/-- without `file_type`, the channels that are not paths and deliver the whole content are
+indistinguishable; a path whose suffix names a supported type behaves like that explicit type -/
 theorem channel_independent_implicit (bin : FileType → Str → Except Err Book) (c₁ c₂ : Channel)
-    (content : Str) (h₁ : ∀ s x, c₁ ≠ .path s x) (h₂ : ∀ s x, c₂ ≠ .path s x) :
+    (content : Str) (h₁ : ∀ s x, c₁ ≠ .path s x) (h₂ : ∀ s x, c₂ ≠ .path s x)
+    (w₁ : c₁.whole = true) (w₂ : c₂.whole = true) :
     getXlsform bin c₁ content none = getXlsform bin c₂ content none := by
-  cases c₁ with
-  | path s x => exact absurd rfl (h₁ s x)
-  | _ => cases c₂ with
-    | path s x => exact absurd rfl (h₂ s x)
-    | _ => rfl
+  rw [getXlsform_eq, getXlsform_eq, data_of_whole c₁ content w₁, data_of_whole c₂ content w₂,
+    (fileType_of_not_path c₁ content h₁).1, (fileType_of_not_path c₂ content h₂).1,
+    (fileType_of_not_path c₁ content h₁).2, (fileType_of_not_path c₂ content h₂).2]
 
 theorem path_suffix_is_file_type (bin : FileType → Str → Except Err Book) (stem suffix : Str) (content : Str)
     (t : FileType) (h : FileType.ofSuffix suffix = some t) :
@@ -259,36 +273,57 @@ theorem md_roundtrip (wb : Workbook) (h : Md.MdOK wb = true) (hm : isMarkdownTab
     mdToDict (renderMd wb) = .ok (toBook wb) := Md.md_roundtrip wb h hm
 
 theorem getXlsform_md (bin : FileType → Str → Except Err Book) (c : Channel) (wb : Workbook)
-    (h : Md.MdOK wb = true) (hm : isMarkdownTable (renderMd wb) = true) :
+    (hw : c.whole = true) (h : Md.MdOK wb = true) (hm : isMarkdownTable (renderMd wb) = true) :
     getXlsform bin c (renderMd wb) (some .md) =
-      match toDefinition (toBook wb) with
-      | .error e => .error e
-      | .ok b => .ok (b, stemOf c) := by
-  rw [getXlsform_eq]
+      .ok (toDefinition (toBook wb), stemOf c) := by
+  rw [getXlsform_eq, data_of_whole c _ hw]
   simp only [tryParsers, parser, md_roundtrip wb h hm]
   cases c <;> rfl
 
 theorem getXlsform_csv (bin : FileType → Str → Except Err Book) (c : Channel) (wb : Workbook)
-    (h : Csv.CsvOK wb = true) (hc : isCsv (renderCsv wb) = true) :
+    (hw : c.whole = true) (h : Csv.CsvOK wb = true) (hc : isCsv (renderCsv wb) = true) :
     getXlsform bin c (renderCsv wb) (some .csv) =
-      match toDefinition (toBook wb) with
-      | .error e => .error e
-      | .ok b => .ok (b, stemOf c) := by
-  rw [getXlsform_eq]
+      .ok (toDefinition (toBook wb), stemOf c) := by
+  rw [getXlsform_eq, data_of_whole c _ hw]
   simp only [tryParsers, parser, csv_roundtrip wb h hc]
   cases c <;> rfl
+
+/-- table fact: every supported sheet and its header are `DefinitionData` fields (re-checked on every run) -/
+theorem supported_are_fields :
+    (supported.all fun s => definitionFields.contains s && definitionFields.contains (s ++ headerSuffix)) = true ∧
+      definitionFields.contains sheetNamesKey = true := by decide
+
+/-- the key filter of `definition_to_dict` keeps the whole dict container of a workbook whose sheets
+are XLSForm sheets (in particular of every workbook inside `Md.MdOK`) -/
+theorem toDefinition_toBook (wb : Workbook) (h : ∀ s ∈ wb, lowerAscii s.name ∈ supported) :
+    toDefinition (toBook wb) = toBook wb := by
+  unfold toDefinition
+  rw [List.filter_eq_self]
+  intro kv hkv
+  have hs := supported_are_fields
+  simp only [toBook, List.mem_cons, List.mem_flatMap] at hkv
+  rcases hkv with rfl | ⟨s, hsw, he⟩
+  · exact hs.2
+  · have hsup := h s hsw
+    have := (List.all_eq_true.1 hs.1) _ hsup
+    simp only [Bool.and_eq_true] at this
+    simp only [sheetEntries, List.mem_cons, List.not_mem_nil, or_false] at he
+    rcases he with rfl | rfl
+    · exact this.1
+    · exact this.2
 
 /-- **channel_independent.** On the model: a workbook inside both guards, rendered as Markdown or
 as CSV and delivered through any two channels (with the container's `file_type`), is parsed to the
 same workbook structure — the dict container `toBook wb` — and the only trace of the channel is the
 stem a path supplies. -/
 theorem channel_independent (bin : FileType → Str → Except Err Book) (c₁ c₂ : Channel) (wb : Workbook)
+    (w₁ : c₁.whole = true) (w₂ : c₂.whole = true)
     (hmd : Md.MdOK wb = true) (hm : isMarkdownTable (renderMd wb) = true)
     (hcsv : Csv.CsvOK wb = true) (hc : isCsv (renderCsv wb) = true) :
     (getXlsform bin c₁ (renderMd wb) (some .md)).map Prod.fst =
       (getXlsform bin c₂ (renderCsv wb) (some .csv)).map Prod.fst := by
-  rw [getXlsform_md bin c₁ wb hmd hm, getXlsform_csv bin c₂ wb hcsv hc]
-  cases toDefinition (toBook wb) <;> rfl
+  rw [getXlsform_md bin c₁ wb w₁ hmd hm, getXlsform_csv bin c₂ wb w₂ hcsv hc]
+  rfl
 
 /-- non-vacuity: a two-sheet workbook inside both guards; both channels give `toBook` -/
 def exBoth : Workbook :=
